@@ -361,6 +361,16 @@ fn alphabet(thorough: bool) -> Vec<Spec> {
         tx("bridge-withdraw-30-i1-ch0", &W, vec![withdrawal(Some((&BR1, "i1")), &BR1, native.clone(), 30, 0)]),
         tx("unlock-br1-10-i1", &W, vec![unlock(&BR1, &CAROL, 10, "i1")]),
         tx("withdraw-25-utia-ch0", &ALICE, vec![withdrawal(None, &ALICE, utia_here(), 25, 0)]),
+        // a foreign asset forwarded over a channel it did not arrive on (this chain is the source zone
+        // for that hop: escrow, multi-segment trace), and coming back over that channel
+        tx("withdraw-10-utia-ch1", &ALICE, vec![withdrawal(None, &ALICE, utia_here(), 10, 1)]),
+        inc("recv 10 returning forwarded utia -> ALICE ch1", Incoming::Recv {
+            denom: format!("transfer/{COUNTERPARTY_CHANNEL}/{}", utia_here()),
+            amount: 10,
+            receiver: addr(&ALICE).to_string(),
+            memo: String::new(),
+            channel: 1,
+        }),
         // a second sequencer-origin fee asset that leaves, is delisted by the sudo address, and comes back
         tx("withdraw-30-fee2-ch0", &ALICE, vec![withdrawal(None, &ALICE, fee2(), 30, 0)]),
         tx("delist-fee2", &SUDO, vec![Action::FeeAssetChange(astria_core::protocol::transaction::v1::action::FeeAssetChange::Removal(fee2()))]),
